@@ -40,6 +40,7 @@ type Profile struct {
 	OptShapes      bool // bias towards shapes the optimizer rewrites (x*0, x+0, copies, constant branches)
 	FreeVars       bool // declare fv0:int fv1:bool fv2:str as untyped-at-runtime inputs (C03/C15)
 	RareIndexSet bool // `a[i] = v` / `$ o.f = v` statements are rare (the compiler has no case for them: the whole module falls back to the interpreter)
+	WsCalls    bool // ws.send / ws.broadcast / ws.join ... statements: the side effects bytecode has (C03: their order must survive optimisation)
 	ReqVariants bool // body routes under PUT / PATCH / DELETE too, bodies under other content types, non-object and malformed bodies
 	ObserveAll int  // percent of routes whose last return of a route also returns every route-scope variable
 	Moods      bool // draw a per-case mood: clean (well-typed program, well-formed requests), mild, or the profile's full fault rate
@@ -1042,6 +1043,9 @@ func (g *G) stmt() *Node {
 		return &Node{K: "guard", S: "nope", I: 400, C: []*Node{g.guardCond()}}
 	}
 	k := g.n("stmt", 100)
+	if g.p.WsCalls && g.inFunc == "" && g.pct("wsstmt", 14) {
+		return g.wsStmt()
+	}
 	switch {
 	case k < 30:
 		return g.declStmt()
@@ -1269,6 +1273,42 @@ func (g *G) switchStmt() *Node {
 		n.C = append(n.C, N("sdefault", g.block(2)))
 	}
 	return n
+}
+
+// wsStmt: a call whose only point is its effect on the connection / hub. The message depends on
+// variables, so reordering, duplicating, dropping or hoisting it shows in the recorded sequence.
+func (g *G) wsStmt() *Node {
+	g.event("ws-side-effect")
+	msg := func() *Node {
+		switch g.n("wsmsg", 4) {
+		case 0:
+			return g.expr("int", 2)
+		case 1:
+			return g.expr("str", 2)
+		case 2:
+			if vs := g.visible("", false); len(vs) > 0 {
+				return Var(g.pick("wsv", vs))
+			}
+		}
+		return g.lit(g.pick("wslt", []string{"int", "str", "bool"}))
+	}
+	room := Str(g.pick("wsroom", []string{"r1", "r2"}))
+	switch g.n("wsk", 8) {
+	case 0, 1, 2:
+		return NS("exprstmt", "", Call("ws.send", msg()))
+	case 3:
+		return NS("exprstmt", "", Call("ws.broadcast", msg()))
+	case 4:
+		return NS("exprstmt", "", Call("ws.broadcast_to_room", room, msg()))
+	case 5:
+		return NS("exprstmt", "", Call("ws.join", room))
+	case 6:
+		return NS("exprstmt", "", Call("ws.leave", room))
+	}
+	// a read of hub state into a variable: its position relative to the joins matters
+	n := g.fresh()
+	g.declare(n, &vinfo{ty: "int"})
+	return NS("decl", n, Call("ws.get_connection_count"))
 }
 
 func (g *G) mutateStmt() *Node {
